@@ -71,6 +71,7 @@ class Run:
         self.findings: List[Finding] = []
         self.per_rule: Dict[str, Dict[str, int]] = {}
         self.floors: List[dict] = []
+        self.floor_failures: List[str] = []
         self.canaries: List[dict] = []
         self.notes: List[str] = []
         self.analysed: Dict[str, object] = {}
@@ -103,7 +104,9 @@ class Run:
     def floor(self, rule: str, what: str, n: int, minimum: int) -> None:
         self.floors.append({"rule": rule, "what": what, "count": n, "floor": minimum})
         if n < minimum:
-            raise AnalysisError(f"{self.prop}/{rule}: vacuity guard: {what} = {n} < confirmed floor {minimum}")
+            # decided at the end: a violation already found on the way is reported as such, otherwise the run is
+            # an analysis error (a rule that matches too few sites must not pass vacuously)
+            self.floor_failures.append(f"{self.prop}/{rule}: vacuity guard: {what} = {n} < confirmed floor {minimum}")
 
     def canary(self, rule: str, name: str, flagged: bool) -> None:
         self.canaries.append({"rule": rule, "canary": name, "flagged": bool(flagged)})
@@ -126,6 +129,8 @@ class Run:
                 continue
             seen.add(f.key())
             (listed if f.key() in known_keys else unlisted).append(f)
+        if self.floor_failures and not unlisted:
+            raise AnalysisError("; ".join(self.floor_failures))
         for f in listed:
             print(f"KNOWN-FINDING: property={self.prop} rule={f.rule} {f.module}:{f.scope}:{f.construct} - {f.what}")
         stale = [k for key, k in known_keys.items() if key not in {f.key() for f in listed}]
